@@ -126,6 +126,8 @@ def generate(seed, tier="quick"):
     counts = []
     for _ in range(npaths):
         style = r.choice(["zero", "one", "small", "small", "burst", "one_interval"])
+        if kind == "levy" and mode == "fixed" and r.random() < 0.02:
+            style = "huge"  # more jumps in one date interval than a 16-bit counter holds
         if style == "zero":
             row = [0] * nint
         elif style == "one":
@@ -133,6 +135,9 @@ def generate(seed, tier="quick"):
             row[r.randrange(nint)] = 1
         elif style == "small":
             row = [r.choice([0, 1, 2, 3]) for _ in range(nint)]
+        elif style == "huge":
+            row = [0] * nint
+            row[r.randrange(nint)] = r.choice([65536, 70001])
         elif style == "burst":
             row = [r.choice([0, 5, 12, 25]) for _ in range(nint)]
         else:
@@ -382,6 +387,8 @@ def execute(wd, sc):
             wd.probes["c15.zero_jump_path"] += 1
         if max(row) >= 5:
             wd.probes["c15.burst"] += 1
+        if max(row) >= 65536:
+            wd.probes["c15.more_jumps_than_16_bits_in_one_interval"] += 1
         if sc["dates"] >= 3:
             wd.probes["c15.multi_date"] += 1
         if coupled:
@@ -391,6 +398,10 @@ def execute(wd, sc):
         # ---- sizes of the jumps in simulation order, per interval -----------------------------------
         if kind == "levy":
             flat = [x for chunk in sizes[s0:] for x in chunk]
+            if len(flat) != sum(row):
+                add(f"C15.counts|jump counts used by the path are not the pre-drawn / drawn Poisson counts|{cls}",
+                    {"path": p, "jump_sizes_drawn": len(flat), "drawn_counts": [int(x) for x in row]})
+                continue
             per_interval, pos = [], 0
             for n in row:
                 per_interval.append(flat[pos:pos + n])
